@@ -50,7 +50,8 @@ def bounds(tier):
     for cls, _spec in fprog.statement_specs(tier):
         classes[cls] = classes.get(cls, 0) + 1
     return {"statement_templates": len(fprog.ORDER),
-            "core_templates": len(fprog._flag("c")),
+            "core_templates": len(fprog._flag("c")) - (
+                len(fprog.QUICK_CORE_DROPPED) if tier == "quick" else 0),
             "mini_core": len(fprog._flag("k")),
             "programs_per_class": classes,
             "max_sequence": 2 if tier == "quick" else 3, "max_nesting": 2,
